@@ -1,0 +1,29 @@
+//go:build verif
+
+package graph
+
+import "fmt"
+
+// VerifAssignWeightsInOrder is AssignWeights with the depth-first start nodes taken from `order` instead of from the
+// iteration order of the node map, so that a check can enumerate the start orders instead of sampling them. The loop
+// body is the one of AssignWeights; /verif compares the two loop bodies on every run (SSA, modulo the iteration source).
+func (wg *WeightedAuthorizationModelGraph) VerifAssignWeightsInOrder(order []string) error {
+	visited := make(map[string]bool)
+	ancestorPath := make([]*WeightedAuthorizationModelEdge, 0)
+	tupleCycleDependencies := make(map[string][]*WeightedAuthorizationModelEdge)
+
+	for _, node := range order {
+		if visited[node] {
+			continue
+		}
+
+		tupleCyles, err := wg.calculateNodeWeight(node, visited, ancestorPath, tupleCycleDependencies)
+		if err != nil {
+			return err
+		}
+		if len(tupleCyles) > 0 {
+			return fmt.Errorf("%w: %d tuple cycles found without resolution", ErrTupleCycle, len(tupleCyles))
+		}
+	}
+	return nil
+}
